@@ -675,6 +675,21 @@ func (s *Service) streamResponse(clientCtx, upstreamCtx context.Context, w http.
 	})
 	defer watchdog.Stop()
 
+	// Both timers measure how long the backend stays silent. They are disarmed as soon as a read
+	// returns: the time the client then takes to accept the data (a slow or momentarily busy
+	// reader, a full send window) is not the backend's, and must not end the stream as a
+	// "read timeout" - cutting off, without any error the client could see, a backend that
+	// never paused.
+	disarm := func() {
+		watchdog.Stop()
+		if !readDeadline.Stop() {
+			select {
+			case <-readDeadline.C:
+			default:
+			}
+		}
+	}
+
 	for {
 		// Check for context cancellation
 		if err := s.checkContexts(clientCtx, upstreamCtx, readDeadline, state, rlog); err != nil {
@@ -695,7 +710,7 @@ func (s *Service) streamResponse(clientCtx, upstreamCtx context.Context, w http.
 		watchdog.Reset(s.configuration.GetReadTimeout())
 
 		// Read and process data
-		if err := s.processStreamData(resp, buffer, state, w, isStreaming, rc, rlog); err != nil {
+		if err := s.processStreamData(resp, buffer, state, w, isStreaming, rc, rlog, disarm); err != nil {
 			if errors.Is(err, io.EOF) {
 				return state.totalBytes, state.lastChunk, nil
 			}
